@@ -137,6 +137,8 @@ type World struct {
 	variants  map[string][]string
 	canonMemo map[string]string
 	RealSig   bool
+	// IndexShape: how the genesis peer indices were laid out
+	IndexShape string
 }
 
 // Universe holds keys generated once per run (key generation is the expensive part).
@@ -186,9 +188,47 @@ func NewWorld(u *Universe, rng *rand.Rand, n0, extra int) (*World, error) {
 	for i := 0; i < n0; i++ {
 		vals = append(vals, w.Nodes[i].Key)
 	}
-	if err := w.E.InitGovernance(vals); err != nil {
-		return nil, err
+	// genesis configuration built here (not by nat.InitGovernance) so that peer indices and the epoch
+	// length take boundary shapes: contiguous 1..n, gapped, starting above 1, unordered, large
+	vb := pk.SetConfig(5, vals)
+	w.IndexShape = []string{"contiguous", "gapped", "offset", "unordered", "large", "gapped"}[rng.Intn(6)]
+	idx := make([]uint32, n0)
+	next := uint32(1)
+	for i := range idx {
+		switch w.IndexShape {
+		case "gapped":
+			next += uint32(rng.Intn(3)) // some indices are skipped
+		case "offset":
+			if i == 0 {
+				next = uint32(2 + rng.Intn(50))
+			}
+		case "large":
+			if i == n0-1 {
+				next = 4294967295 - 1000 - uint32(rng.Intn(1000)) // far from wrap-around within one history
+			}
+		}
+		idx[i] = next
+		next++
 	}
+	if w.IndexShape == "gapped" && idx[n0-1] == uint32(n0) {
+		idx[n0-1] = uint32(n0 + 1) // at least one gap
+	}
+	if w.IndexShape == "unordered" {
+		rng.Shuffle(n0, func(i, j int) { idx[i], idx[j] = idx[j], idx[i] })
+	}
+	for i, p := range vb.Peers {
+		p.Index = idx[i]
+	}
+	vb.MaxBlockChangeView = []uint32{100, 100, 1, 2, 1000}[rng.Intn(5)]
+	sink := common.NewZeroCopySink(nil)
+	vb.Serialization(sink)
+	w.E.Height = 0
+	rec := w.E.Call(utils.NodeManagerContractAddress, "initConfig", sink.Bytes())
+	w.E.Height = 1
+	if !rec.Ok {
+		return nil, fmt.Errorf("initConfig: %s", rec.Err)
+	}
+	w.E.Validators = vals
 	return w, nil
 }
 
